@@ -354,6 +354,20 @@ def never_populated(ctx, cr, adt, fname):
     return True
 
 
+def fn_formats_coloured(cr, base):
+    """some body of function `base` (itself or one of its closures) still formats a ColoredString"""
+    for k, f in cr.fns.items():
+        if k == base or k.startswith(base + "::{closure"):
+            for bi, t in M.iter_calls(f):
+                p = M.norm_path(t["fn"].get("path", ""))
+                d = M.norm_path(t["fn"].get("decl", ""))
+                if p.endswith("Argument::new_display") or d in ("std::string::ToString::to_string", "std::fmt::Display::fmt"):
+                    tys = [M.Ty(cr, x) for x in t["fn"].get("ga", [])]
+                    if any((ty.strip_refs().adt_path() or "").endswith("ColoredString") for ty in tys):
+                        return True
+    return False
+
+
 def colour_sources(ctx, table):
     """`colored` decides at run time (CLICOLOR_FORCE / NO_COLOR / isatty) whether a ColoredString renders escape sequences; the
     decision is taken in <ColoredString as Display>::fmt.  A ColoredString that is only dereferenced (write_str(&"x".red())) yields the
@@ -390,6 +404,18 @@ def colour_sources(ctx, table):
             # enclosing named function
             base = k.split("::{closure")[0]
             ent = table.get(key) or next((v for tk, v in table.items() if tk.endswith(":tty/env:colored") and tk.split("::{closure")[0].split(":tty/env")[0] == base), None)
+            if ent is None:
+                # moved with its statement into another method of the same type / module (a function split in two): a reviewed row whose
+                # own function no longer formats a ColoredString, in the same module, is taken over (conservation, as in R-C08)
+                mod = "::".join(base.lstrip("<").split(" as ")[0].split("::")[:4])
+                for tk, v in table.items():
+                    if not tk.endswith(":tty/env:colored"):
+                        continue
+                    tfn = tk.split(":tty/env")[0]
+                    tbase = tfn.split("::{closure")[0]
+                    if "::".join(tbase.lstrip("<").split(" as ")[0].split("::")[:4]) == mod and not fn_formats_coloured(cr, tbase):
+                        ent = ("moved from %s: %s" % (tfn, v[0]),)
+                        break
             if k not in reach:
                 ctx.ob(rule, "%s:%s" % (kind, key), True, "a ColoredString is formatted here, in a function no structured-output builder reaches (console text only)", fn=f, line=hits[0].get("ln", 0))
             else:
